@@ -22,7 +22,7 @@ CLAIMED = {
               "evaluates the property text on the same histories."),
         note=COMMON_NOTE,
         technique="Coq proof (refinement to list/dict spec) + vm_compute correspondence on edit histories",
-        design="4/C03"),
+        design="3/C03"),
 }
 
 CLAIMED["C01"] = dict(
@@ -34,7 +34,7 @@ CLAIMED["C01"] = dict(
           "constructor + later edits, all small signature shapes x all subsets of set parameters)."),
     note=COMMON_NOTE + " inspect.signature is trusted (the model receives the implementation's signature).",
     technique="Coq proof (binding = reference view) + vm_compute correspondence on recording callables",
-    design="4/C01")
+    design="3/C01")
 
 CLAIMED["C02"] = dict(
     text=("fdl.build modelled as a generic memoized post-order traversal over a heap with uninterpreted "
@@ -48,7 +48,7 @@ CLAIMED["C02"] = dict(
          "(ids are never recycled) and exercised by the temporaries + gc stream; recursion depth is unbounded "
          "in the model (the harness checks deep chains give RecursionError or a correct result).",
     technique="Coq proof (memoized DFS invariant) + vm_compute correspondence with isomorphism check",
-    design="4/C02")
+    design="3/C02")
 CLAIMED["C05"] = dict(
     text=("Build model with a failure oracle and the in-build flag: on failure at node k the log is exactly "
           "what completed before, k is reachable, the input heap is unchanged and the flag is reset; evaluated "
@@ -60,7 +60,7 @@ CLAIMED["C05"] = dict(
          "harness oracle only. Known findings: StopIteration -> RuntimeError; path through a **kwargs entry "
          "named like a positional-only parameter.",
     technique="Coq proof (failure prefix / purity / flag) + fault enumeration correspondence",
-    design="4/C05")
+    design="3/C05")
 
 CLAIMED["C08"] = dict(
     text=("Gallina models of daglish's traversals over a heap (un-memoized pre-order with paths, memoized "
@@ -73,7 +73,7 @@ CLAIMED["C08"] = dict(
     note=COMMON_NOTE + " Known finding: daglish_legacy.memoized_traverse raises KeyError on node types whose "
          "flatten creates temporaries.",
     technique="Coq proof (path soundness/completeness, memoized once) + vm_compute correspondence on 10 entry points",
-    design="4/C08")
+    design="3/C08")
 
 CLAIMED["C06"] = dict(
     text=("Gallina model of Buildable.__eq__ (Eq.cfg_eq: values-or-defaults compared with Python ==, then "
@@ -86,7 +86,7 @@ CLAIMED["C06"] = dict(
          "order changes first-visit paths of objects shared inside one dict. Leaves: bool==int modelled, "
          "integer-valued floats avoided by the generator.",
     technique="Coq proof (equivalence of the model's ==) + vm_compute correspondence on rewrite-related pairs",
-    design="4/C06")
+    design="3/C06")
 CLAIMED["C07"] = dict(
     text=("deepcopy / pickle round trip modelled as instances of the generic memoized traversal (incl. "
           "copy._deepcopy_tuple's identity rule), copy.copy and fdl.cast as re-flattening of the top node; "
@@ -99,7 +99,7 @@ CLAIMED["C07"] = dict(
     note=COMMON_NOTE + " copy.deepcopy and pickle are library code (their memoize-by-identity semantics is "
          "modelled and validated by the stream).",
     technique="Coq proof (copy mirrors + disjoint, iso checker soundness) + vm_compute correspondence + edit-frame oracle",
-    design="4/C07")
+    design="3/C07")
 
 CLAIMED["C16"] = dict(
     text=("One Buildable's arguments, tags, history log, the global sequence counter and the nestable tracking "
@@ -115,7 +115,7 @@ CLAIMED["C16"] = dict(
          "(decided by the thread stream only). Tag API entries are attributed to the tagging function (asserted "
          "by the pinned suite), so caller attribution is checked for value entries.",
     technique="Coq proof (history invariants by induction over edits) + per-step vm_compute correspondence",
-    design="4/C16")
+    design="3/C16")
 
 CLAIMED["C14"] = dict(
     text=("set_tagged (lazy memoized pre-order walk that mutates a node before enumerating its children), "
@@ -128,7 +128,7 @@ CLAIMED["C14"] = dict(
           "copy, cast, JSON and diff application, and TaggedValues inside containers."),
     note=COMMON_NOTE + " issubclass on Tag classes enters the model as a table computed by the harness.",
     technique="Coq proof (frame/post-state of set_tagged) + exact heap correspondence after in-place edits",
-    design="4/C14")
+    design="3/C14")
 CLAIMED["C15"] = dict(
     text=("NodeSelection (memoized leaves-first walk, matching by callable / subclass table / Buildable type), "
           ".set, .replace (memoized rebuild where Buildables keep their identity and containers are new) and "
@@ -139,7 +139,7 @@ CLAIMED["C15"] = dict(
           "yielded by a tag selection); independent Python oracle of the property text incl. deepcopy mode."),
     note=COMMON_NOTE + " issubclass on configured classes enters the model as a table computed by the harness.",
     technique="Coq proof (selection exactness, replace identity preservation) + vm_compute correspondence",
-    design="4/C15")
+    design="3/C15")
 
 CLAIMED["C18"] = dict(
     text=("Text-level model of the path printer, of the command-line path grammar (the two alternatives of "
@@ -154,7 +154,7 @@ CLAIMED["C18"] = dict(
          "statement. Known finding: a **kwargs entry named like a positional-only parameter is printed but "
          "cannot be written back.",
     technique="Coq proof (print/parse and repr/unescape round trips) + vm_compute correspondence on printed paths",
-    design="4/C18")
+    design="3/C18")
 
 CLAIMED["C09"] = dict(
     text=("The bytes codec of the serializer (latin-1 with the raw_unicode_escape fallback for old documents; the "
@@ -170,7 +170,7 @@ CLAIMED["C09"] = dict(
     note=COMMON_NOTE + " json, importlib trusted. Known finding: inf/nan leaves are written as Infinity/NaN "
          "(not strict JSON). Object naming, the 'paths' debugging field and metadata encoding are not modelled.",
     technique="Coq proof (codec bijection, policy gate, copy faithfulness) + vm_compute correspondence on documents",
-    design="4/C09")
+    design="3/C09")
 
 CLAIMED["C20"] = dict(
     text=("materialize_defaults and with_defaults_trimmed modelled on one argument store (Transform.materialize / "
@@ -186,7 +186,7 @@ CLAIMED["C20"] = dict(
          "partial(f) identified with f, numerically equal leaves identified (Python ==), tuple-of-literals "
          "identity not observed. inline / dataclass conversion / unintern are decided by the oracle only.",
     technique="Coq proof (view preservation of materialize/trim; traversal instances) + heap correspondence + build oracle",
-    design="4/C20")
+    design="3/C20")
 
 CLAIMED["C17"] = dict(
     text=("Heap-effect discipline: every modelled read-only or copy-returning API (build, deepcopy / pickle copy, "
@@ -201,7 +201,7 @@ CLAIMED["C17"] = dict(
     note=COMMON_NOTE + " APIs without a model (rendering, validation, grep, yaml, code generation) are decided "
          "by the before/after sweep only.",
     technique="Coq proof (generic frame theorem for append-only traversals) + before/after sweep over 48 entry points",
-    design="4/C17")
+    design="3/C17")
 
 CLAIMED["C04"] = dict(
     text=("Building a Partial / ArgFactory and calling the result are modelled on the heap (Partial.v): promotion of "
@@ -216,7 +216,7 @@ CLAIMED["C04"] = dict(
           "freshness per argument from the property text."),
     note=COMMON_NOTE + " functools.partial is CPython; its merge is modelled and validated by the stream.",
     technique="Coq proof (append-only calls, override, pass-through) + multi-call correspondence under one bijection",
-    design="4/C04")
+    design="3/C04")
 
 CLAIMED["C19"] = dict(
     text=("Interleaving semantics over Fiddle's module-level state (per-thread build guard and tracking switch, the "
@@ -231,23 +231,28 @@ CLAIMED["C19"] = dict(
          "itertools.count.__next__, lru_cache and WeakKeyDictionary are assumptions of the model; the theorem is about "
          "interleavings of the modelled actions, the scheduler samples real line-level interleavings.",
     technique="Coq proof (non-interference for all interleavings of atomic actions) + deterministic line-level scheduler",
-    design="4/C19")
+    design="3/C19")
 
 PENDING_REASON = "check not built yet in this session (work in progress; see DESIGN.md section 4)"
 
 
 CLAIMED["C10"] = dict(
-    text=("Gallina model of diffing._apply_changes on a resolved diff (Diff.apply_changes: changes grouped in "
-          "phases, each change addresses a parent by path and edits one argument / key / index / callable / tag); "
-          "theorems about the frame of one change and of the phase order; evaluated in Coq on the changes the real "
-          "build_diff + resolve_diff_references produced for random (old, new) pairs and compared with the real "
-          "_apply_changes result. The alignment heuristics are not modelled: build_diff followed by apply_diff is "
-          "decided by a round-trip oracle (copy of old becomes equal to new in callables, arguments, tags and "
-          "sharing; the diff and new are not modified; the diff of a deep copy is empty)."),
-    note=COMMON_NOTE + " Construction of the diff (alignment by len(repr)) is validated by the oracle only. "
-         "Known finding: configurations with positional arguments are not supported by the differ.",
-    technique="Coq model of _apply_changes + vm_compute correspondence; round-trip oracle over labelled rewrites",
-    design="4/C10")
+    text=("Gallina model of the whole round trip on one heap holding old and new: DiffBuild.build_changes "
+          "(_DiffFromAlignmentBuilder given the alignment the real builder ends with: aligned objects become "
+          "references to old objects with the recorded callable / tag / argument / key / index operations, all "
+          "other objects are copied once; references resolved to pointers) followed by Diff.apply_changes "
+          "(_apply_changes: parents resolved up front, five phases in the order extracted from the source). "
+          "Theorems about apply (length, frame, per-parent decomposition, phase order) and, where merged, the "
+          "round-trip theorem patch(old) ~ new. Evaluated in Coq on random (old, new) pairs: the model must turn "
+          "old into new (graph isomorphism up to storage and dict order) and agree with what the real build_diff + "
+          "apply_diff produced; _apply_changes is also compared node for node on the real resolved diffs. A "
+          "Python round-trip oracle judges every pair (labelled rewrites incl. rewrites inside tuples)."),
+    note=COMMON_NOTE + " The alignment HEURISTICS (which objects get aligned; depends on len(repr(value))) are not "
+         "modelled: the model receives the alignment, and checks on every case that it satisfies what "
+         "DiffAlignment promises (alignment_ok). Known finding: configurations with positional arguments are not "
+         "supported by the differ.",
+    technique="Coq model of diff construction from an alignment + _apply_changes, vm_compute correspondence on both; round-trip oracle",
+    design="3/C10")
 
 CLAIMED["C11"] = dict(
     text=("Mini-language of straight-line configuration programs with two Gallina semantics (Lang.eval with "
@@ -261,7 +266,7 @@ CLAIMED["C11"] = dict(
     note=COMMON_NOTE + " The AST rewrite itself (ast.NodeTransformer, compile, closure cells) is exercised, not "
          "modelled; CPython constant folding of tuple displays is written into the model programs by the harness.",
     technique="Coq proof (two semantics related through build) + vm_compute correspondence on generated source programs",
-    design="4/C11")
+    design="3/C11")
 
 CLAIMED["C12"] = dict(
     text=("Gallina model of the core of the code generators (Codegen.gen: nodes held by two slots become variables in "
@@ -277,7 +282,22 @@ CLAIMED["C12"] = dict(
          "history comments are exercised by executing the emitted module, not modelled. Known findings: tags in "
          "new_codegen, several tags on one argument, sharing lost through sub-fixtures.",
     technique="Coq proof (generated program rebuilds the heap) + emitted text parsed back and evaluated in Coq + execution oracle",
-    design="4/C12")
+    design="3/C12")
+
+CLAIMED["C13"] = dict(
+    text=("Gallina model of the statement order of codegen_diff.fiddler_from_diff (Fiddler.fiddler_order: changes "
+          "grouped by parent path; inside a group deletes and remove_tag, then update_callable, then assignments "
+          "and add_tag, each in diff order) and of its execution when every referenced path is captured in a "
+          "variable first; theorems: the emitted statements are a permutation of the changes, and executing them "
+          "gives what Diff.apply_changes (five global phases) gives. The emitted fiddler TEXT is parsed back by a "
+          "fail-closed translator into its statement order, which must equal the model's; executing in that order "
+          "and apply_changes must both yield the graph the real fiddler produced. Every emitted fiddler (explicit / "
+          "short naming x old supplied / not supplied; diffs from build_diff and five families of hand-assembled "
+          "diffs) is compiled, executed on a copy of old and compared with apply_diff."),
+    note=COMMON_NOTE + " The alias analysis used when old is supplied (which paths need a variable), variable naming "
+         "and expression emission (py_val_to_cst_converter) are decided by executing the fiddler, not modelled.",
+    technique="Coq proof (statement order vs phase order) + emitted text parsed back and checked in Coq + execution oracle",
+    design="3/C13")
 
 
 def main():
